@@ -374,3 +374,26 @@ PLANS["C19"] = dict(
              drive=dict(driver="sigrepo"), validate=dict(module="Trace_SigRepo", cfg=C19_TRACE)),
     ],
 )
+
+# ------------------------------------------------------------------ C07
+PLANS["C07"] = dict(
+    level_text="The round trip is stated as functional laws in Notation.tla (payload = descriptor reduced to media type, digest, size, annotations "
+               "plus user metadata; blob digest algorithm = hash bound to the key spec, with the lemma that the signer's key-spec hash equals the "
+               "verifier's signature-algorithm hash for all six key specs; expiry = signing time + duration; returned descriptor; metadata read "
+               "back); TLC enumerates key specs x formats x local/raw-plugin/envelope-plugin signers x descriptor shapes (extra fields, "
+               "annotations) / blob sizes and media types x metadata x expiry; every case is signed through notation.SignOCI / SignBlob with real "
+               "keys and verified through notation.Verify / VerifyBlob, reading payload, signed attributes, returned descriptor and UserMetadata().",
+    level_note="Trusted: TLC, Go crypto, notation-core-go envelopes. Plugin-backed signers are in-process plugin.SignPlugin implementations "
+               "signing with the same keys. Quick tier: EC-256/384/521 and RSA-2048; thorough adds RSA-3072/4096.",
+    rule="cases = InputSpace of MC_Notation_C07; non-trivial = blob, metadata or extra descriptor fields; distinct = distinct abstract input",
+    exhaustive=True,
+    phases=[dict(
+        name="roundtrip",
+        gen=dict(module="MC_Notation_C07",
+                 cfg=lambda tier, seed: mc_cfg(["Inv_C07", "Inv_Emit"], consts=['Keys = {"EC-256", "EC-384", "EC-521", "RSA-2048", "RSA-3072", "RSA-4096"}' if tier == "thorough"
+                                                                               else 'Keys = {"EC-256", "EC-384", "EC-521", "RSA-2048"}']),
+                 select=take_all),
+        drive=dict(driver="roundtrip"),
+        validate=dict(module="Trace_NotationRT", cfg=trace_cfg()),
+    )],
+)
